@@ -2,6 +2,8 @@ package dht
 
 import (
 	"context"
+	"net"
+	"time"
 
 	"github.com/anacrolix/dht/v2/krpc"
 )
@@ -89,4 +91,49 @@ func VerifC20_MustFail() {
 	p := verifStartQuery(v, context.Background(), verifC07Addrs[0], "ping", QueryInput{RateLimiting: QueryRateLimiting{NotAny: true}})
 	_ = p
 	verifAssert(v.sock.attempts <= verifEventCount("limiter.grant"), "twin: even an opted-out query takes a token (must fail)")
+}
+
+// Table maintenance under an arbitrary limiter: TableMaintainer on a table with one questionable
+// contact (pinged, three tries that wait for budget) and one good contact (bucket refresh / bootstrap
+// lookups query it), nobody answers. Every datagram maintenance writes is rated; the limiter grants or
+// refuses each acquisition arbitrarily (a refused Wait is a cancelled or failed wait). The budget
+// obligation holds for the whole run.
+func VerifC20_Maintenance() {
+	v := verifStartServer(verifSrvOpt{noSecurity: true, concreteID: true})
+	verifFreezeClock(true)
+	for i, st := range []int{verifStale, verifGood} {
+		b := 3 * i // bucket 0 is the one TableMaintainer pings and refreshes
+		verifAddContact(v, verifContact{
+			state: st, bucket: b,
+			id:   verifConcreteIDInBucket(v.id, b, byte(i+1)),
+			addr: &net.UDPAddr{IP: net.IP{198, 51, 100, byte(10 + i)}, Port: 2000 + i},
+		})
+	}
+	v.s.mu.Lock()
+	v.s.lastBootstrap = time.Now()
+	v.s.mu.Unlock()
+	done := false
+	go func() {
+		v.s.TableMaintainer()
+		done = true
+	}()
+	verifQuiesce()
+	for i := 0; i < 2 && !done && verifFireTimers() > 0; i++ {
+		verifQuiesce()
+	}
+	v.s.Close()
+	verifQuiesce()
+	for i := 0; i < 8 && !done && verifFireTimers() > 0; i++ {
+		verifQuiesce()
+	}
+	verifAssert(done, "C14: TableMaintainer returns once the server is closed")
+	rated := make([]bool, len(v.sock.results))
+	for i := range rated {
+		rated[i] = true
+	}
+	verifBudget(v, rated)
+	if v.sock.attempts > 0 {
+		verifReach("wrote")
+	}
+	verifReach("end")
 }
